@@ -64,9 +64,15 @@ fn observer(kind: ObsKind, addr: usize, size: usize, align: usize) {
                     }
                     BoxOwner::Map(id) => {
                         if let Some(o) = m.obj_mut(id) {
-                            o.map_addr = addr;
-                            o.map_live = true;
-                            o.map_buffered = Tri::Out;
+                            if o.map_live {
+                                // a second map for the same cleaner (register re-entered while the first call was
+                                // allocating): one of the two is redundant
+                                o.spare_maps.push(addr);
+                            } else {
+                                o.map_addr = addr;
+                                o.map_live = true;
+                                o.map_buffered = Tri::Out;
+                            }
                         }
                     }
                     BoxOwner::Unknown => {}
@@ -141,8 +147,18 @@ fn observer(kind: ObsKind, addr: usize, size: usize, align: usize) {
                 }
                 BoxOwner::Map(id) => {
                     if let Some(o) = m.obj_mut(id) {
-                        o.map_live = false;
-                        o.map_buffered = Tri::Out;
+                        if let Some(p) = o.spare_maps.iter().position(|a| *a == addr) {
+                            o.spare_maps.remove(p);
+                        } else {
+                            o.map_live = false;
+                            o.map_buffered = Tri::Out;
+                            if let Some(a) = o.spare_maps.pop() {
+                                // the redundant map was the one that went away: the other one is the cleaner's map
+                                o.map_addr = a;
+                                o.map_live = true;
+                                o.map_buffered = Tri::Unk;
+                            }
+                        }
                     }
                 }
                 BoxOwner::Unknown => {}
@@ -518,11 +534,16 @@ pub fn on_action(wd: &World, owner: u32, idx: usize) {
     if state::is_tracing().ok() != Some(false) {
         wd.err("C12", "is_tracing_in_action", format!("is_tracing_true_in_action:{}", wd.stack_sig()), format!("state::is_tracing() = {:?} inside cleaning action {} of #{}", state::is_tracing().ok(), idx, owner));
     }
+    let cleaning_this = wd.cleaning.borrow().contains(&(owner, idx));
     let mut m = wd.m.borrow_mut();
+    let cleaner_dropping = m.obj(owner).map_or(false, |o| o.cleaner_enter_seen && !o.cleaner_exit_seen);
     if let Some(a) = m.obj_mut(owner).and_then(|o| o.actions.get_mut(idx)) {
         a.runs += 1;
         if a.runs > 1 {
             wd.err("C10", "action_ran_twice", "action_ran_twice".into(), format!("cleaning action {} of #{} ran {} times", idx, owner, a.runs));
+        } else if !cleaning_this && !cleaner_dropping && !wd.degraded.get() && wd.fault_fired.get() == 0 {
+            // an action runs when its own clean() is called or when its Cleaner is dropped, and at no other time
+            wd.err("C10", "action_ran_without_trigger", format!("action_ran_without_trigger:{}", wd.stack_sig()), format!("cleaning action {} of #{} ran although neither its clean() is being called nor its Cleaner is being dropped (stack {})", idx, owner, wd.stack_sig()));
         }
     }
 }
